@@ -294,6 +294,11 @@ def run_world(case, order, prng):
             prng.shuffle(rule_order)
     stages = {}
     record = W.build_record(world)
+    if case.get("earlier_subregion"):
+        from antismash.common.secmet.features import SubRegion
+        from antismash.common.secmet.locations import FeatureLocation
+        start, end = case["earlier_subregion"]
+        record.add_subregion(SubRegion(FeatureLocation(start, end, 1), tool="earlier-tool", label="earlier"))
     name_record(record)
     add_notes(record, order, prng)
     ruleset = W.build_ruleset(world, order=rule_order)
